@@ -193,15 +193,22 @@ theorem step_onUpstreamReset (c : Cfg) (s : S) : Step s (onUpstreamReset c s) :=
       · exact step_onUpstreamResetFinish c _ _
   · exact step_onUpstreamResetFinish c s _
 
+theorem fr_abandonRetry (x : S) : Fr x (abandonRetry x) := by
+  unfold abandonRetry; split
+  · exact ⟨rfl, rfl, rfl, rfl⟩
+  · exact Fr.refl x
+
 theorem step_peTail (c : Cfg) (s : S) (e : Bool) : Step s (peTail c s e).1 := by
   unfold peTail
   split
   · exact step_dsResetStream c s
   · split
     · simp only
+      have hs : Step s (abandonRetry { s with direct := false, rs := none, retries := (rsReset c s).retries }) :=
+        Step.trans (Step.frame rfl rfl) (fr_abandonRetry _).step
       split
-      · exact Step.frame rfl rfl
-      · split <;> exact Step.frame rfl rfl
+      · exact hs
+      · split <;> exact hs
     · split
       · exact Step.frame rfl rfl
       · exact Step.refl s
@@ -308,38 +315,69 @@ theorem lstep_receiveTrailers (c : Cfg) (s : S) (hp : s.phase = .DownRecvTrailer
     exact (Step.thenL (Step.frame rfl rfl : Step s { s with recvDone := true }) rfl
       (lstep_sent c _ (fun _ => by show sendingPhase s.phase = true; rw [hp]; rfl))).then (Step.frame rfl rfl)
 
-/-- `doRetry` answers itself (no healthy host any more) only before anything went downstream; it arms the global timer only
-when the request had not been completely sent before (the first attempt was refused half-way) -/
-theorem lstep_doRetry (c : Cfg) (s : S) (h : s.respStarted = false) : LStep s (doRetry c s) := by
-  unfold doRetry
+/-- the send calls of the upstream request touch neither the global timer nor its object -/
+theorem upAppendHeaders_timer (c : Cfg) (s : S) (eos : Bool) :
+    (upAppendHeaders c s eos).global = s.global ∧ (upAppendHeaders c s eos).gtObj = s.gtObj := by
+  unfold upAppendHeaders
   split
-  · simp only
-    exact (Step.trans (Step.trans (Step.frame rfl rfl : Step s { s with setupRetry := false })
-      (step_sendHijack _ NoHealthUpstreamCode false h)) (step_cleanUp c _)).l
+  · exact ⟨rfl, rfl⟩
+  · simp only; split <;> exact ⟨rfl, rfl⟩
+
+/-- `doRetry` answers itself (no healthy host any more, the global timeout) only before anything went downstream; it arms
+the global timer only when no timer object exists — never once the request was completely sent and its timer armed
+(`h24`: while a retry is possible the timer of a sent request is armed, unless it fired or a local reply is pending) -/
+theorem lstep_doRetry (c : Cfg) (s : S) (h : s.respStarted = false)
+    (h24 : s.reqSent = true → s.direct = false → (s.globalExpired && s.up.isSome) = false → s.global = true) :
+    LStep s (doRetry c s) := by
+  rw [doRetry_eq]
+  split
+  · exact (Step.refl s).l
+  rename_i hdt
+  split
+  · exact (Step.frame (by simp [store, upOnResetStream]) (by simp [upOnResetStream]) (by simp [upOnResetStream])
+      (by simp [upOnResetStream]) : Step s _).l
+  rename_i hex
+  unfold doRetryBody
+  split
+  · have e : Step s (if s.up.isSome = true then { s with setupRetry := false } else s) := by
+      split
+      · exact Step.frame rfl rfl
+      · exact Step.refl s
+    have hrs : (if s.up.isSome = true then ({ s with setupRetry := false } : S) else s).respStarted = false := by
+      split <;> exact h
+    exact (Step.trans (Step.trans e (step_sendHijack _ NoHealthUpstreamCode false hrs)) (step_cleanUp c _)).l
   · simp only
     have f1 : Fr s (upAppendHeaders c { s with up := some none, setupRetry := false } (!c.hasData && !c.hasTrailers)) :=
       Fr.trans (⟨rfl, rfl, rfl, rfl⟩ : Fr s { s with up := some none, setupRetry := false }) (fr_upAppendHeaders c _ _)
-    generalize upAppendHeaders c { s with up := some none, setupRetry := false } (!c.hasData && !c.hasTrailers) = a at f1
-    have f2 : Fr s (if c.hasData = true then upAppendData a (!c.hasTrailers) else a) := by
+    have t1 := upAppendHeaders_timer c { s with up := some none, setupRetry := false } (!c.hasData && !c.hasTrailers)
+    generalize upAppendHeaders c { s with up := some none, setupRetry := false } (!c.hasData && !c.hasTrailers) = a at f1 t1
+    have f2 : Fr s (if c.hasData = true then upAppendData a (!c.hasTrailers) else a) ∧
+        (if c.hasData = true then upAppendData a (!c.hasTrailers) else a).global = s.global := by
       split
-      · exact Fr.trans f1 ⟨rfl, rfl, rfl, rfl⟩
-      · exact f1
+      · exact ⟨Fr.trans f1 ⟨rfl, rfl, rfl, rfl⟩, t1.1⟩
+      · exact ⟨f1, t1.1⟩
     generalize (if c.hasData = true then upAppendData a (!c.hasTrailers) else a) = b at f2
-    have f3 : Fr s (if c.hasTrailers = true then upAppendTrailers b else b) := by
+    have f3 : Fr s (if c.hasTrailers = true then upAppendTrailers b else b) ∧
+        (if c.hasTrailers = true then upAppendTrailers b else b).global = s.global := by
       split
-      · exact Fr.trans f2 ⟨rfl, rfl, rfl, rfl⟩
+      · exact ⟨Fr.trans f2.1 ⟨rfl, rfl, rfl, rfl⟩, f2.2⟩
       · exact f2
     generalize (if c.hasTrailers = true then upAppendTrailers b else b) = d at f3
-    have harm : retryArmsGlobalWhenUnsent = true := by decide
+    obtain ⟨f3, hgd⟩ := f3
     cases hq : s.reqSent with
     | true =>
       have hd : d.reqSent = true := by rw [f3.2.2.1]; exact hq
-      simp only [harm, hd, Bool.not_true, Bool.and_false, Bool.false_eq_true, if_false]
+      have hg : d.global = true := by
+        rw [hgd]
+        exact h24 hq (by simpa using hdt) (by simpa using hex)
+      have htm : hasTimerObj d = true := by simp [hasTimerObj, hg, hd]
+      simp only [htm, Bool.not_true, Bool.false_eq_true, if_false]
       refine (Step.trans f3.step ?_).l
       exact Step.frame rfl rfl (by show true = d.reqSent; rw [hd]) rfl
     | false =>
       have hd : d.reqSent = false := by rw [f3.2.2.1]; exact hq
-      simp only [harm, hd, Bool.not_false, Bool.and_true, if_true]
+      have htm : hasTimerObj d = false := by simp [hasTimerObj, hd]
+      simp only [htm, Bool.not_false, if_true]
       refine ⟨fun _ => h, Or.inl ?_, Or.inr ⟨rfl, ?_, fun hh => by rw [hq] at hh; cases hh⟩⟩
       · show store (onUpstreamRequestSent c d) = store s
         exact f3.1
@@ -452,7 +490,22 @@ theorem lstep_work (c : Cfg) (ar aq : Nat) (s : S) (h : Inv c ar aq s) : LStep s
         · exact (Step.trans h1 (step_reenter x _)).l
       · exact (Step.frame rfl rfl : Step s _).l
     · rename_i hp
-      exact (lstep_doRetry c s (h.k16 hcl (by rw [hp]; rfl))).then (step_finishPhase c _)
+      refine (lstep_doRetry c s (h.k16 hcl (by rw [hp]; rfl)) ?_).then (step_finishPhase c _)
+      intro hq hdt hex
+      have hup : s.up.isSome = true := by rw [(h.k26 hcl hp).2.2.2]; rfl
+      have hge : s.globalExpired = false := by simpa [hup] using hex
+      have how : c.oneway = false := by
+        cases ho : c.oneway with
+        | false => rfl
+        | true => exact absurd hp (h.k32 hcl ho).2.2
+      have hrs : s.rs.isSome = true := by
+        rcases h.k18 hcl (by rw [hp]; rfl) with ⟨ho, _, _⟩ | hm
+        · rw [how] at ho; cases ho
+        · exact hm.2.1
+      rcases h.k24 hcl how hq hrs with h1 | h1 | h1
+      · exact h1
+      · rw [hge] at h1; cases h1
+      · rw [hdt] at h1; cases h1
     · split
       · exact (Step.trans (Step.frame rfl rfl : Step s { s with notify := false }) (step_finishPhase c _)).l
       · exact (Step.refl s).l
@@ -570,9 +623,12 @@ theorem step_terminate (c : Cfg) (ar aq : Nat) (s : S) (code : Nat) (h : Inv c a
   split
   · exact Step.refl s
   rename_i hpk _ hcl _
-  simp only [parked, Bool.not_eq_true', Bool.not_eq_false, Bool.and_eq_true, beq_iff_eq] at hpk
   have hcl' : s.cleaned = false := by simpa using hcl
-  have hrs : s.respStarted = false := h.k16 hcl' (by rw [hpk.1.2]; rfl)
+  have hrs : s.respStarted = false := by
+    simp only [asleep, parked, backoff, Bool.not_eq_true', Bool.not_eq_false, Bool.and_eq_true, Bool.or_eq_true, beq_iff_eq] at hpk
+    rcases hpk with hpk | hpk
+    · exact h.k16 hcl' (by rw [hpk.1.2]; rfl)
+    · exact h.k16 hcl' (by rw [hpk.2]; rfl)
   refine ⟨fun _ => hrs, Or.inr ⟨hrs, ?_⟩, by simp [terminateAcc], by simp [terminateAcc]⟩
   intro r hr
   simp only [store, terminateAcc] at hr ⊢
@@ -596,8 +652,6 @@ theorem step_async (c : Cfg) (ar aq : Nat) (s : S) (l : Label) (hl : l ≠ .work
     | none => exact Step.refl s
     | some st =>
       simp only
-      split
-      · exact Step.refl s
       split
       · exact Step.refl s
       split
@@ -657,6 +711,11 @@ theorem step_async (c : Cfg) (ar aq : Nat) (s : S) (l : Label) (hl : l ≠ .work
     simp only [step]
     rw [terminateRaced_eq]
     exact step_terminate c ar aq s code h
+  | gtInSetup b =>
+    simp only [step, gtInSetup]
+    split
+    · exact Step.refl s
+    · exact Step.frame rfl rfl
 
 /-- **every label is an allowed transition** -/
 theorem lstep_label (c : Cfg) (ar aq : Nat) (s : S) (l : Label) (h : Inv c ar aq s) : LStep s (step c s l) := by
